@@ -504,4 +504,100 @@ theorem idref_mlaws (ab : Bool) (c : Ident.IdCtx) (hwf : c.WF) (bases : List Ide
     obtain ⟨hints, s, i, hs, rfl⟩ := mstored_idref h
     simp only [idrefPlugWith, (key hs).2]
 
+/-! ### the `validate` callback -/
+
+/-- member `m` does not take the value at validation time: its store refuses it, or the stored value does not resolve -/
+def NotTaken (m : Plug) (targets : List Bytes) (hints : Nat) (s : Bytes) : Prop :=
+  (∃ e, m.store hints s = .error e) ∨ ∃ w, m.store hints s = .ok w ∧ m.resolves targets w = false
+
+theorem findTypeV_some_iff (targets : List Bytes) : ∀ (ms : List Plug) (i hints : Nat) (s : Bytes) (u : UVal),
+    findTypeV targets ms i hints s = some u ↔
+      ∃ k m, u.idx = i + k ∧ ms[k]? = some m ∧ m.store hints s = .ok u.val ∧ m.resolves targets u.val = true ∧
+        ∀ j, j < k → ∀ mj : Plug, ms[j]? = some mj → NotTaken mj targets hints s
+  | [], i, hints, s, u => by
+    simp only [findTypeV, List.getElem?_nil]
+    constructor
+    · intro h; cases h
+    · rintro ⟨_, _, _, h, _⟩; cases h
+  | m :: r, i, hints, s, u => by
+    have step : findTypeV targets r (i + 1) hints s = some u ↔
+        ∃ k m', u.idx = i + (k + 1) ∧ (m :: r)[k + 1]? = some m' ∧ m'.store hints s = .ok u.val ∧ m'.resolves targets u.val = true ∧
+          ∀ j, j < k → ∀ mj : Plug, r[j]? = some mj → NotTaken mj targets hints s := by
+      rw [findTypeV_some_iff targets r (i + 1) hints s u]
+      constructor
+      · rintro ⟨k, m', hk, hg, h1, h2, h3⟩
+        exact ⟨k, m', by omega, by simpa using hg, h1, h2, h3⟩
+      · rintro ⟨k, m', hk, hg, h1, h2, h3⟩
+        exact ⟨k, m', by omega, by simpa using hg, h1, h2, h3⟩
+    have finish (hnt : NotTaken m targets hints s) : findTypeV targets r (i + 1) hints s = some u ↔
+        ∃ k m', u.idx = i + k ∧ (m :: r)[k]? = some m' ∧ m'.store hints s = .ok u.val ∧ m'.resolves targets u.val = true ∧
+          ∀ j, j < k → ∀ mj : Plug, (m :: r)[j]? = some mj → NotTaken mj targets hints s := by
+      rw [step]
+      constructor
+      · rintro ⟨k, m', hk, hg, h1, h2, h3⟩
+        refine ⟨k + 1, m', hk, hg, h1, h2, ?_⟩
+        intro j hj mj hmj
+        cases j with
+        | zero => simp only [List.getElem?_cons_zero, Option.some.injEq] at hmj; subst hmj; exact hnt
+        | succ j => exact h3 j (by omega) mj (by simpa using hmj)
+      · rintro ⟨k, m', hk, hg, h1, h2, h3⟩
+        cases k with
+        | zero =>
+          simp only [List.getElem?_cons_zero, Option.some.injEq] at hg
+          subst hg
+          rcases hnt with ⟨e, he⟩ | ⟨w, hw, hr⟩
+          · rw [h1] at he; cases he
+          · rw [h1] at hw; injection hw with hw; subst hw; rw [h2] at hr; cases hr
+        | succ k =>
+          refine ⟨k, m', hk, hg, h1, h2, ?_⟩
+          intro j hj mj hmj
+          exact h3 (j + 1) (by omega) mj (by simpa using hmj)
+    unfold findTypeV
+    cases hm : m.store hints s with
+    | error e =>
+      simp only
+      exact finish (Or.inl ⟨e, hm⟩)
+    | ok v =>
+      simp only
+      by_cases hr : m.resolves targets v = true
+      · rw [if_pos hr]
+        constructor
+        · intro h
+          injection h with h
+          subst h
+          exact ⟨0, m, rfl, rfl, hm, hr, fun j hj => absurd hj (Nat.not_lt_zero j)⟩
+        · rintro ⟨k, m', hk, hg, h1, h2, h3⟩
+          cases k with
+          | zero =>
+            simp only [List.getElem?_cons_zero, Option.some.injEq] at hg
+            subst hg
+            rw [hm] at h1
+            injection h1 with h1
+            cases u
+            simp only [Nat.add_zero] at hk
+            simp only at h1
+            subst hk; subst h1
+            rfl
+          | succ k =>
+            rcases h3 0 (Nat.succ_pos k) m rfl with ⟨e, he⟩ | ⟨w, hw, hrw⟩
+            · rw [hm] at he; cases he
+            · rw [hm] at hw; injection hw with hw; subst hw; rw [hr] at hrw; cases hrw
+      · rw [if_neg hr]
+        have hr' : m.resolves targets v = false := by
+          cases h : m.resolves targets v with
+          | true => exact absurd h hr
+          | false => rfl
+        exact finish (Or.inr ⟨v, hm, hr'⟩)
+
+theorem findTypeV_eq_findType (targets : List Bytes) : ∀ (ms : List Plug) (i hints : Nat) (s : Bytes),
+    (∀ m ∈ ms, m.reqInst = false) → findTypeV targets ms i hints s = findType ms i hints s
+  | [], _, _, _, _ => rfl
+  | m :: r, i, hints, s, h => by
+    unfold findTypeV findType
+    have hm : m.reqInst = false := h m (List.mem_cons_self ..)
+    have ih := findTypeV_eq_findType targets r (i + 1) hints s (fun x hx => h x (List.mem_cons_of_mem _ hx))
+    cases hs : m.store hints s with
+    | error e => simp only [ih]
+    | ok v => simp only [Plug.resolves, hm, Bool.not_false, Bool.true_or, if_true]
+
 end LyModel.Val
